@@ -14,7 +14,7 @@ ASSUME = [common.TRUSTED, "'accepted' for ReadMapping/NewMapping = error list em
           "ReadLeaseSet returns no remainder: its serialisation must be a prefix of the input (and have the reference length when the reference accepts)"]
 META = {
     "level": "model_checking",
-    "technique": "TLA+ reference codec model-checked exhaustively (append graph, Small instance) incl. an implementation-shaped model of the mapping pair loop; TLC-computed encodings replayed into every parser; recorded (input, remainder, serialisation) validated by TLC against the spec",
+    "technique": "TLA+ reference codec model-checked exhaustively (append graph, Small instance) incl. an implementation-shaped model of the mapping pair loop; TLC-computed encodings replayed into every parser; recorded (input, remainder, serialisation) validated by TLC against the spec; heap machine MC_Fresh (negative controls: append onto a view of the input, recycled buffer handed out) sampled by struct copies of parsed values that are edited and serialised while the original and its input buffer are observed",
     "text": ("The predicate 'serialisation = input minus remainder' is evaluated by TLC on every recorded parser call of the real library, for "
              "inputs that TLC computed from an independent TLA+ description of the I2P layout across the whole shape space, including the "
              "non-canonical-but-accepted classes (excess certificate payload, unknown certificate types, odd mappings, every key-type pair) and "
@@ -25,6 +25,8 @@ META = {
 
 
 def check(run):
+    # who owns the memory behind a result: the machine behind the kept-result chains, the "again" twins and the edited struct copies
+    common.mc_fresh(run, controls=("onto-field", "pool"))
     common.mc_structs(run)
     common.gen_structs(run)
     run.gen("Gen_MapBodies")
